@@ -81,6 +81,22 @@ def parseCV? (s : String) (dss : List PDS) : Option (List (List (List Nat × Lis
     else per.mapM (fun fs => (splitNE fs "|").mapM parseFold?)
   | _ => none
 
+/-- folds per dataset AND per strategy (a cv object that returns another split on every call):
+`givenps:<dataset>;<dataset>` with `<dataset> = <strategy>!<strategy>` and `<strategy> = fold|fold` -/
+def parseCVPS? (s : String) (dss : List PDS) : Option (List (List (List (List Nat × List Nat)))) :=
+  match s.splitOn ":" with
+  | ["givenps", g] =>
+    let per := g.splitOn ";"
+    if per.length ≠ dss.length then none
+    else per.mapM (fun ds => (ds.splitOn "!").mapM (fun fs => (splitNE fs "|").mapM parseFold?))
+  | _ => none
+
+/-- `_iter` when `cv.split` answers differently per call: the folds of (dataset, strategy) are that call's -/
+def mkWorkPS (pds : List (PDS × List (List (List Nat × List Nat)))) (sts : List (Strat String)) :
+    List (Item String) :=
+  pds.flatMap (fun (d, perS) => (sts.zip perS).flatMap (fun (s, fs) =>
+    foldItems s ⟨d.name, d.data, fs⟩ 0 fs))
+
 /-- `<owP owF saveF pot as T/F>:<fail|none>:<fresh T/F>:<number of strategies used in this run>` -/
 def parseRun? (s : String) : Option (RunSpec × Nat) :=
   match s.splitOn ":" with
@@ -95,12 +111,12 @@ def parseRun? (s : String) : Option (RunSpec × Nat) :=
   | _ => none
 
 /-- a history in which every run may use a prefix of the strategies (a benchmark that grows) -/
-def runHist {K} [DecidableEq K] (cfg : Cfg String K) (L : Learner Rat) (dsl : List (DS String))
+def runHist {K} [DecidableEq K] (cfg : Cfg String K) (L : Learner Rat) (work : List (Strat String) → List (Item String))
     (sts : List (Strat String)) : St String K Rat → List (RunSpec × Nat) → List (Run String K Rat)
   | _, [] => []
   | st, (rs, ns) :: t =>
-    let r := runOne cfg L (mkWork dsl (sts.take ns)) st rs
-    r :: runHist cfg L dsl sts r.st t
+    let r := runOne cfg L (work (sts.take ns)) st rs
+    r :: runHist cfg L work sts r.st t
 
 /-! printing -/
 
@@ -177,16 +193,22 @@ def handle (toks : List String) : String :=
     match ncls?, (splitNE dss ";").mapM parseDS?, (splitNE strats ";").mapM parseStrat?,
           (splitNE runs ";").mapM parseRun? with
     | some ncls, some pds, some sts, some rspecs =>
-      match parseCV? cv pds with
+      let work? : Option ((List (Strat String) → List (Item String)) × Nat) :=
+        match parseCV? cv pds with
+        | some folds =>
+          let dsl : List (DS String) := (pds.zip folds).map (fun (d, f) => ⟨d.name, d.data, f⟩)
+          some (mkWork dsl, (folds.map List.length).foldl max 0)
+        | none =>
+          (parseCVPS? cv pds).map (fun fps =>
+            (mkWorkPS (pds.zip fps), ((fps.map (fun perS => (perS.map List.length).foldl max 0))).foldl max 0))
+      match work? with
       | none => "bad-op"
-      | some folds =>
-        let dsl : List (DS String) := (pds.zip folds).map (fun (d, f) => ⟨d.name, d.data, f⟩)
-        let nfolds := (folds.map List.length).foldl max 0
+      | some (work, nfolds) =>
         let L := learner ncls
         if store == "hdd" then
-          showHistory (hddCfg String) showHddKey nfolds (runHist (hddCfg String) L dsl sts St.empty rspecs)
+          showHistory (hddCfg String) showHddKey nfolds (runHist (hddCfg String) L work sts St.empty rspecs)
         else if store == "ram" then
-          showHistory (ramCfg String) showRamKey nfolds (runHist (ramCfg String) L dsl sts St.empty rspecs)
+          showHistory (ramCfg String) showRamKey nfolds (runHist (ramCfg String) L work sts St.empty rspecs)
         else "bad-op"
     | _, _, _, _ => "bad-op"
   | _ => "bad-op"
